@@ -15,6 +15,8 @@ import (
 	"sync/atomic"
 	"testing/synctest"
 	"time"
+	twina "verifharness/poolsim/ta/twin"
+	twinb "verifharness/poolsim/tb/twin"
 
 	"github.com/GoogleCloudPlatform/grpc-gcp-go/grpcgcp"
 	"google.golang.org/grpc/balancer"
@@ -201,6 +203,7 @@ type world struct {
 	aliveBefore int                // pool connections at the start of the current primitive op
 	anySwap     bool
 	sawResolve  bool
+	sawResErr   bool
 }
 
 // fail reports a violated rule. prop may list alternatives ("C09|C06"): the first enabled one is
@@ -569,7 +572,17 @@ func (w *world) opResolve(op *Op) {
 	w.checkPub("Resolve", R0)
 }
 
+// pickerProp: the published picker answers like its state says (C04); once a resolver error was reported, a deviation
+// is also a change in how calls are routed after a resolver error (C20).
+func (w *world) pickerProp() string {
+	if w.sawResErr {
+		return "C04|C20"
+	}
+	return "C04"
+}
+
 func (w *world) opResolverErr(op *Op) {
+	w.sawResErr = true
 	R0 := w.readySet()
 	w.resetObs()
 	addrs := map[*fsc]string{}
@@ -813,7 +826,8 @@ func (w *world) doState(sc *fsc, s connectivity.State) {
 }
 
 // request builds the request message and the reference key extraction result.
-func reqFor(m Method, key string, kind int) (msg interface{}, keyOut string, keyErr bool) {
+func reqFor(m0 Method, key string, kind int) (msg interface{}, keyOut string, keyErr bool) {
+	m := m0
 	switch kind {
 	case 1:
 		return nil, "", true
@@ -824,6 +838,16 @@ func reqFor(m Method, key string, kind int) (msg interface{}, keyOut string, key
 	case 5:
 		// the locator names a field promoted from a nil embedded message pointer
 		return &EmbMsg{Other: "o"}, "", true
+	case 6, 7:
+		// two request types from different packages that print as "twin.Req" and keep the key at different positions
+		var m interface{} = &twina.Req{Key: key, Other: "decoy-a"}
+		if kind == 7 {
+			m = &twinb.Req{Other: "decoy-b", Num: 7, Key: key}
+		}
+		if m0.Bad || m0.Path != "key" {
+			return m, "", true
+		}
+		return m, key, false
 	}
 	if kind == 2 {
 		msg = &Msg{}
@@ -1061,7 +1085,7 @@ func (w *world) pickReturned(pp *pendingPick, out pickOut, keyed, refErr bool, R
 	}
 	// rule 1
 	if (err == balancer.ErrTransientFailure) != (p.state == connectivity.TransientFailure) {
-		w.fail("C04", "A.pick.1", "%s: picker published with %v returned err=%v", what, p.state, err)
+		w.fail(w.pickerProp(), "A.pick.1", "%s: picker published with %v returned err=%v", what, p.state, err)
 	}
 	grew := false
 	key := pp.key
@@ -1087,7 +1111,7 @@ func (w *world) pickReturned(pp *pendingPick, out pickOut, keyed, refErr bool, R
 	case p.state == connectivity.TransientFailure:
 	case len(p.snap) == 0:
 		if err != balancer.ErrNoSubConnAvailable {
-			w.fail("C04", "A.pick.2", "%s: picker with an empty READY snapshot returned placed=%d err=%v", what, placed, err)
+			w.fail(w.pickerProp(), "A.pick.2", "%s: picker with an empty READY snapshot returned placed=%d err=%v", what, placed, err)
 		}
 	case keyed && refErr:
 		w.labels["key-extraction-error"]++
